@@ -82,7 +82,7 @@ func genCase(user bool) func(t *rapid.T) Case {
 			anyCfg = cfg
 		}
 		c.Desc = tv.GenDesc(t, cfg)
-		vc := tv.ValCfg{BadUTF8: true, NonFinite: true, AnyDescs: anyCfg, RawInvalid: true, PoolGen: poolGen, TimeWide: true}
+		vc := tv.ValCfg{BadUTF8: true, NonFinite: true, AnyDescs: anyCfg, RawInvalid: true, PoolGen: poolGen, TimeWide: true, Zones: true}
 		if user {
 			vc.AnyKeyPool = poolKeys
 		}
@@ -454,4 +454,93 @@ func classify(c *Case) {
 	for k := range kinds {
 		rec.Class("type-has-" + k)
 	}
+}
+
+// genWide builds objects with many member names (around the 64-name and
+// 1 KiB thresholds of the encoder's name tracking) in which one name may
+// repeat an earlier one at a boundary-biased position, produced through a raw
+// value, a MarshalJSONTo script, colliding text-marshaler keys or a map fallback.
+func genWide(t *rapid.T) Case {
+	n := rapid.SampledFrom([]int{3, 22, 23, 24, 63, 64, 65, 66, 67, 68, 70, 130}).Draw(t, "n")
+	long := rapid.Bool().Draw(t, "longnames")
+	names := make([]string, n)
+	for i := range names {
+		if long {
+			names[i] = fmt.Sprintf("name-%03d-%s", i, strings.Repeat("x", 40))
+		} else {
+			names[i] = fmt.Sprintf("k%d", i)
+		}
+	}
+	idx := func(label string) int {
+		i := rapid.SampledFrom([]int{0, 1, 21, 22, 23, 62, 63, 64, 65, 66, 67, n - 2, n - 1}).Draw(t, label)
+		if rapid.IntRange(0, 3).Draw(t, label+"rnd") == 0 {
+			i = rapid.IntRange(0, n-1).Draw(t, label+"any")
+		}
+		return max(0, min(i, n-1))
+	}
+	src, dst := idx("src"), idx("dst")
+	if dst < src {
+		src, dst = dst, src
+	}
+	dup := rapid.IntRange(0, 3).Draw(t, "dup?") != 0 && src != dst
+	if dup {
+		names[dst] = names[src]
+	}
+	c := Case{EncOpts: nil, Opts: nil, Entry: rapid.IntRange(0, 4).Draw(t, "entry")}
+	if rapid.IntRange(0, 3).Draw(t, "det") == 0 {
+		c.Opts = append(c.Opts, opt.B("Deterministic", true))
+	}
+	switch rapid.IntRange(0, 3).Draw(t, "carrier") {
+	case 0: // raw value
+		var sb strings.Builder
+		sb.WriteByte('{')
+		for i, nm := range names {
+			if i > 0 {
+				sb.WriteByte(',')
+			}
+			fmt.Fprintf(&sb, "%q:%d", nm, i)
+		}
+		sb.WriteByte('}')
+		c.Desc = &tv.Desc{K: "raw"}
+		c.Val = tv.Val{S: []byte(sb.String())}
+	case 1: // script writing the object token by token
+		ops := []tv.Val{opVal(opBeginObject, nil, 0)}
+		for i, nm := range names {
+			ops = append(ops, opVal(opString, []byte(nm), 0), opVal(opInt, nil, int64(i)))
+		}
+		ops = append(ops, opVal(opEndObject, nil, 0))
+		c.Desc = &tv.Desc{K: "pool:ScriptTo"}
+		c.Val = tv.Val{Elems: []tv.Val{{Elems: ops}, {B: rapid.Bool().Draw(t, "ignore")}}}
+	case 2: // text-marshaler keys: distinct Go keys, colliding text
+		c.Desc = &tv.Desc{K: "map", Key: &tv.Desc{K: "pool:KeyT"}, Elem: &tv.Desc{K: "int"}}
+		for i, nm := range names {
+			c.Val.Keys = append(c.Val.Keys, tv.Val{S: []byte(fmt.Sprintf("%s|%d", nm, i))})
+			c.Val.Elems = append(c.Val.Elems, tv.Val{I: int64(i)})
+		}
+	default: // struct with a map fallback whose keys may collide with field names
+		d := &tv.Desc{K: "struct", ID: 1}
+		v := tv.Val{}
+		nf := n / 2
+		for i := 0; i < nf; i++ {
+			d.Fields = append(d.Fields, tv.Field{Name: fmt.Sprintf("F%d", i), Tag: names[i], HasTag: true, T: &tv.Desc{K: "int"}})
+			v.Elems = append(v.Elems, tv.Val{I: int64(i)})
+		}
+		d.Fields = append(d.Fields, tv.Field{Name: "Fb", Tag: ",embed", HasTag: true, T: &tv.Desc{K: "map", Key: &tv.Desc{K: "string"}, Elem: &tv.Desc{K: "int"}}})
+		fb := tv.Val{}
+		for i := nf; i < n; i++ {
+			fb.Keys = append(fb.Keys, tv.Val{S: []byte(names[i])})
+			fb.Elems = append(fb.Elems, tv.Val{I: int64(i)})
+		}
+		v.Elems = append(v.Elems, fb)
+		c.Desc, c.Val = d, v
+	}
+	if rapid.IntRange(0, 2).Draw(t, "wrap") == 0 {
+		c.Desc = &tv.Desc{K: "slice", Elem: c.Desc}
+		c.Val = tv.Val{Elems: []tv.Val{c.Val, c.Val}}
+	}
+	return c
+}
+
+func opVal(k int, s []byte, n int64) tv.Val {
+	return tv.Val{Elems: []tv.Val{{I: int64(k)}, {S: s, Nil: s == nil}, {I: n}}}
 }
